@@ -245,7 +245,7 @@ Definition uri_adjust (u : puri) (np : pf) : bool * puri :=
     let start := po (u_scheme u) in
     let mv (f : pf) (last : N) : pf * N :=
       if po f =? 0 then (f, last)
-      else (mkpf (to16 (po f + 65536 - start + offs)) (pl f), offs + to16 (po f + 65536 - start) + pl f) in
+      else (mkpf (to16 (po f + 65536 - start + offs)) (pl f), N.max last (offs + to16 (po f + 65536 - start) + pl f)) in
     let '(us, l1) := mv (u_user u) offs in
     let '(pw, l2) := mv (u_pass u) l1 in
     let '(ho, l3) := mv (u_host u) l2 in
